@@ -202,7 +202,20 @@ pub enum CollMode {
     InnerUnrolled(usize),
 }
 
+/// canonical root name of a builder / core parameter, by its declared type
+pub fn canon_root(ty: &syn::Type, name: &str) -> String {
+    let t = crate::index::ty_str(ty);
+    let t = t.trim_start_matches('&').trim_start_matches("mut");
+    for (pat, c) in [("ItemStruct", "item"), ("ItemEnum", "item"), ("DeriveEntry", "e"), ("[FieldEntry", "fields"), ("[VariantEntry", "variants"), ("HelperAttributeKinds", "kinds")] {
+        if t.starts_with(pat) { return c.to_string(); }
+    }
+    if t == "HelperAttributes" { return "hattrs".to_string(); }
+    name.to_string()
+}
+
 pub fn entry_val(ix: &Index, ty: &syn::Type, name: &str, mode: CollMode, st: &mut St) -> Val {
+    let cname = canon_root(ty, name);
+    let name = cname.as_str();
     match ty {
         syn::Type::Reference(r) => {
             if r.mutability.is_some() {
@@ -242,7 +255,7 @@ fn elem_val(ix: &Index, elem: &syn::Type, path: &str, n: usize) -> Val {
         if has_coll {
             let mut fields = Vec::new();
             for (fname, fty) in &sd.fields {
-                let fpath = format!("{path}.{fname}");
+                let fpath = format!("{path}.{}", ix.canon_name(&sd.name, fname));
                 let v = if let syn::Type::Path(p) = fty {
                     let last = p.path.segments.last().unwrap();
                     if last.ident == "Vec" {
@@ -280,7 +293,7 @@ pub fn role_roots(ix: &Index, role: &Role) -> Vec<(String, syn::Type)> {
     }
     let mut ab = AB { ix, binds: vec![] };
     ab.visit_expr(&role.body);
-    ab.binds
+    ab.binds.into_iter().map(|(n, t)| (canon_root(&t, &n), t)).collect()
 }
 
 /// Evaluate the arm body of a role with parameters derived from the callee's signature.
